@@ -66,7 +66,18 @@ Seps == << [t |-> << SPrint(Arr(<<>>)), SPrint(Arr(<<Str("a")>>)), SPrint(Arr(<<
                      SPrint(Arr(<<E0, E0, Str("x y"), E0>>)), SPrint(Arr(<<Arr(<<>>), Arr(<<E0>>), Arr(<<E0, Str("q")>>)>>)), SPrint(Arr(<<E0, Arr(<<E0, E0>>), E0>>)),
                      SVar("g", Arr(<<Str("z"), E0>>)), SExpr(IAsg(Id("g"), Num(0), E0)), SPrint(Id("g")), SPrint(Call(Id("push"), <<Arr(<<>>), E0, Str("k")>>)), SPrint(Call(Id("remove"), <<Arr(<<Str("r"), E0, E0>>), Num(0)>>)) >>,
               c |-> "separators", key |-> "seps:arrays-of-strings"] >>
-Cases == SetToSeq({ [t |-> Prog1(v[3], IsPlainStr(v), v[2] \notin {"nil", "bool"}), c |-> v[2], key |-> "print:" \o v[1]] : v \in Values }) \o Again \o Seps
+(* round 7: a number spliced behind the EMPTY string is a string like any other (it concatenates with a number, equals the
+   same number spliced in front of the empty string, prints the same inside an array), and +0 and -0 spliced in one run
+   keep their own text whichever is spliced first *)
+EmptyPre == << <<"5", Num(5)>>, <<"0", Num(0)>>, <<"-0", Neg(Num(0))>>, <<"1e6", NumLit("1000000")>>, <<"0.5", NumLit("0.5")>>, <<"-3", Neg(Num(3))>>, <<"1<<20", Bin("<<", Num(1), Num(20))>> >>
+Splices == [i \in 1..Len(EmptyPre) |->
+    [t |-> << SVar("s", Bin("+", Str(""), EmptyPre[i][2])), SPrint(Id("s")), SPrint(Bin("+", Id("s"), Num(1))), SPrint(Bin("==", Id("s"), Bin("+", EmptyPre[i][2], Str("")))),
+              SPrint(Arr(<<Id("s"), EmptyPre[i][2]>>)), SPrint(Bin("+", Bin("+", Str(""), EmptyPre[i][2]), Id("s"))) >>, c |-> "empty-prefix", key |-> "splice:''+" \o EmptyPre[i][1]]]
+  \o << [t |-> << SPrint(Bin("+", Str("z"), Num(0))), SPrint(Bin("+", Str("z"), Neg(Num(0)))), SPrint(Bin("+", Num(0), Str("z"))), SPrint(Arr(<<Neg(Num(0)), Num(0)>>)), SPrint(Bin("+", Str("z"), Num(0))) >>,
+           c |-> "both-zeros", key |-> "splice:zeros-pos-first"],
+         [t |-> << SPrint(Bin("+", Str("z"), Neg(Num(0)))), SPrint(Bin("+", Str("z"), Num(0))), SPrint(Bin("+", Neg(Num(0)), Str("z"))), SPrint(Arr(<<Num(0), Neg(Num(0))>>)), SPrint(Bin("+", Str("z"), Neg(Num(0)))) >>,
+           c |-> "both-zeros", key |-> "splice:zeros-neg-first"] >>
+Cases == SetToSeq({ [t |-> Prog1(v[3], IsPlainStr(v), v[2] \notin {"nil", "bool"}), c |-> v[2], key |-> "print:" \o v[1]] : v \in Values }) \o Again \o Seps \o Splices
 Programs == TLCEval([i \in 1..Len(Cases) |-> LayoutProg(Cases[i].t, 1)])
 FamProgOf(i) == Programs[i]
 Init == \E i \in 1..Len(Programs) : InitSem(i, <<>>, FALSE)
